@@ -902,7 +902,7 @@ func TestC10(t *testing.T) {
 		for _, c := range c10SavedCases() {
 			kC10.One(ev, c)
 		}
-		kC10.Run(t, ev, perShard(pick(6000, 1500000)))
+		kC10.Run(t, ev, perShard(pick(6000, 700000)))
 		ev.requireClasses("C10:out-class=pubkey", "C10:out-class=multisig", "C10:out-class=pubkeyhash", "C10:out-class=scripthash",
 			"C10:out-class=nulldata", "C10:out-class=nonstandard", "C10:tx-reason=txid", "C10:tx-reason=output-push",
 			"C10:tx-reason=spent-outpoint", "C10:tx-reason=input-push", "C10:tx-reason=updated",
